@@ -58,6 +58,28 @@ func (t *Collection) markReclaimable(n *node, reclaimMark *node) {
 	n.next = reclaimMark
 }
 
+// Undoes the markReclaimable() calls of a mutation that failed half way,
+// for example due to a file read error.  Otherwise, the nodes that were
+// already marked would be reclaimed as soon as the current root is
+// replaced by the next successful mutation, although they are still
+// part of the tree.
+func (t *Collection) unmarkReclaimable(nloc *nodeLoc, reclaimMark *node) {
+	if nloc.isEmpty() {
+		return
+	}
+	n := nloc.Node()
+	if n == nil {
+		return
+	}
+	t.rootLock.Lock()
+	if n.next == reclaimMark {
+		n.next = nil
+	}
+	t.rootLock.Unlock()
+	t.unmarkReclaimable(&n.left, reclaimMark)
+	t.unmarkReclaimable(&n.right, reclaimMark)
+}
+
 func (t *Collection) reclaimMarkUpdate(nloc *nodeLoc,
 	oldReclaimMark, newReclaimMark *node) *node {
 	if nloc.isEmpty() {
